@@ -32,6 +32,24 @@ Proof.
   rewrite <- andb_assoc, keep_after_run by assumption. reflexivity.
 Qed.
 
+(* a sweep o -> e cancelled at block k (o <= k <= e) leaves EXACTLY the store of a complete prune to k,
+   the hash->number carve-out of k-1 included: the delete of a block's hash->number entry is issued one
+   iteration late, so the entry of the last pruned block survives wherever the loop stops *)
+Lemma keep_after_cancelled_run : forall f i o e k, o <= k -> k <= e ->
+  keep o f i && negb (run_kills f i o e k) = keep k f i.
+Proof.
+  intros f i o e k Hok Hke. unfold run_kills, init_kills, flat_kills, range_kills, keep.
+  pose proof (wf_mono o k ltac:(lia)) as Hw. unfold wf in Hw.
+  destruct f; unfold LAG in *; nsplit.
+Qed.
+
+Lemma cancelled_is_pruned : forall (u : store) o e k rot f i, o <= k -> k <= e ->
+  apply_batches (pruned u o) (prune_batches o e k rot) f i = pruned u k f i.
+Proof.
+  intros. rewrite apply_batches_spec, killed_prune_batches by lia. unfold pruned.
+  rewrite <- andb_assoc, keep_after_cancelled_run by assumption. reflexivity.
+Qed.
+
 (* ---------------------------------------------------------------- D. below the floor *)
 Lemma answers_pruned : forall (u : store) e a n,
   answers (pruned u e) a n = answers u a n && forallb (fun f => keep e f n) (needs a).
